@@ -118,10 +118,30 @@ def _run_once(case, schedule_override=None):
     gates = []
     results = []
     raised = None
+    effective, pending, refused_seen = [], [], []
+    base_threads = threading.active_count()
     numba.set_num_threads(min(case['nthreads'], numba.config.NUMBA_NUM_THREADS))
     scared.set_batch_size(case['batch_size'])
     try:
         for run_idx, run in enumerate(case['runs']):
+            rk = (case.get('refused_runs') or {}).get(str(run_idx))
+            if rk:
+                # a run() on two sets whose sample dtype the accumulation kernel has no version for: every batch of it is refused,
+                # run() must raise, and the analysis goes on afterwards as if that run had never been asked for
+                w1, w2 = run['set1'].astype(rk), run['set2'].astype(rk)
+                try:
+                    import warnings
+                    with warnings.catch_warnings():
+                        warnings.simplefilter('ignore')
+                        analysis.run(scared.TTestContainer(dist.ram_ths(samples=w1), dist.ram_ths(samples=w2), frame=case['frame']))
+                except Exception:  # refused, as expected
+                    refused_seen.append(run_idx)
+                    t_end = time.time() + 60.0
+                    while threading.active_count() > base_threads and time.time() < t_end:
+                        time.sleep(0.005)
+                else:
+                    # accepted by the code: these traces are part of the history then
+                    pending.append((w1.astype('float64'), w2.astype('float64')))
             ths1 = dist.ram_ths(samples=run['set1'])
             ths2 = dist.ram_ths(samples=run['set2'])
             gate = _Gate(analysis, c if run_idx == 0 else dict(c, fault=None))
@@ -153,8 +173,16 @@ def _run_once(case, schedule_override=None):
             finally:
                 scared.TTestThreadAccumulator.run = orig_update
             results.append(np.array(analysis.result, copy=True))
+            if pending:
+                effective.append({'set1': np.concatenate([p[0] for p in pending] + [run['set1'].astype('float64')]),
+                                  'set2': np.concatenate([p[1] for p in pending] + [run['set2'].astype('float64')])})
+                del pending[:]
+            else:
+                effective.append(run)
     finally:
         scared.set_batch_size(None)
+    analysis._verif_effective_runs = effective
+    analysis._verif_refused_seen = refused_seen
     return analysis, gates, results, raised
 
 
@@ -189,9 +217,11 @@ def check_ttest(ctx, case):
             raise Violation('run() raised although the fault position was never reached', case)
     elif raised is not None:
         raise Violation('run() raised without injected fault', case)
-    _compare(ctx, case, analysis, results, eps, '')
+    _compare(ctx, dict(case, runs=analysis._verif_effective_runs), analysis, results, eps, 'after refused run(s) before run %s: ' % analysis._verif_refused_seen if analysis._verif_refused_seen else '')
+    if case.get('refused_runs') and not analysis._verif_refused_seen:
+        ctx.count('refused_run_was_accepted')
     # schedule independence: same data under another schedule must be bit-identical in the exact regime
-    labels = []
+    labels = ['refused_run_in_history'] if analysis._verif_refused_seen else []
     if case['regime'] == 'exact' and case['sched_mode'] == 'tokens' and case.get('alt_schedule') is not None and fault is None:
         a2, g2, r2, _ = must(case, 'TTestAnalysis.run (alternative schedule)', _run_once, case, case['alt_schedule'])
         for k, (x, y) in enumerate(zip(results, r2)):
@@ -319,7 +349,10 @@ def ttest_cases(draw, large=False):
     fault = None
     if not large and draw(st.integers(0, 4)) == 0:
         fault = (draw(st.integers(0, 1)), draw(st.integers(0, 4)))
-    return {'kind': 'ttest', 'precision': precision, 'regime': regime, 'runs': runs, 'batch_size': bs, 'frame': frame, 'preprocess': pre,
+    refused_runs = {}
+    if not large and fault is None and draw(st.integers(0, 3)) == 0:
+        refused_runs = {str(draw(st.integers(0, nruns - 1))): draw(st.sampled_from(['float16', '>i2', '>f4', 'complex64']))}
+    return {'kind': 'ttest', 'refused_runs': refused_runs, 'precision': precision, 'regime': regime, 'runs': runs, 'batch_size': bs, 'frame': frame, 'preprocess': pre,
             'nthreads': draw(st.sampled_from([1, 2, 5, 16])), 'sched_mode': mode, 'schedule': schedule, 'alt_schedule': alt, 'sleeps': sleeps, 'fault': fault}
 
 
